@@ -61,6 +61,7 @@ func checkC11(r *Run) {
 		}
 	}
 	// R2 error classes
+	ruleVerifyParamsSites(r, "C11-R5")
 	r.RejectsAre("C11-R2", "transaction.VerifySingleTxnSoftConstraints", 1, "transaction.NewErrTxnViolatesSoftConstraint(*)")
 	r.RejectsAre("C11-R2", "transaction.VerifySingleTxnHardConstraints", 3, "transaction.NewErrTxnViolatesHardConstraint(*)")
 	r.RejectsAre("C11-R2", "transaction.VerifyBlockTxnConstraints", 1, "transaction.NewErrTxnViolatesHardConstraint(*)")
